@@ -21,6 +21,10 @@ for n in $names; do
     for f in $(echo "$r" | grep -o 'replay=[^ ]*' | cut -d= -f2); do rm -f "$f"; done
   done
   git -C /repo checkout -- .
+  python3 - "$d/meta.json" "$det" <<'PY'
+import json,sys
+m=json.load(open(sys.argv[1])); m['detected_by']=sys.argv[2].split(); json.dump(m,open(sys.argv[1],'w'),indent=1)
+PY
   if [ -z "$det" ]; then echo "MISSED  $n (ran: $props)"; missed=1; else echo "caught  $n by:$det (ran: $props)"; fi
 done
 bin/build.sh go >/dev/null 2>&1
